@@ -130,6 +130,15 @@ func (x *Ctx) Sample(v any) { x.sample = v }
 // traceAll (VERIF_TRACE=1, debugging only): histories are written to stderr as they happen.
 var traceAll = os.Getenv("VERIF_TRACE") != ""
 
+// currentCasePath is where the case being executed is noted ("" outside the driver).
+func currentCasePath(test string) string {
+	p := os.Getenv("VERIF_STATS")
+	if p == "" {
+		return ""
+	}
+	return p + "." + sanitize(test) + ".current.json"
+}
+
 // Tracing reports whether VERIF_TRACE is set.
 func Tracing() bool { return traceAll }
 
@@ -455,6 +464,13 @@ func Run[C any](t *testing.T, prop string, gen func(*rapid.T) C, run func(c C, x
 			rt.Fatalf("case does not serialise: %v", err)
 		}
 		x := newCtx(rt)
+		// write-ahead: should the process die while this case runs (a panic of the code under test on a
+		// goroutine nothing can guard), the driver finds the case here and turns it into a replay file
+		if cur := currentCasePath(test); cur != "" {
+			if b, e := json.Marshal(ReplayFile{Property: prop, Test: test, Case: cj, Msg: "the test process died while executing this case"}); e == nil {
+				_ = os.WriteFile(cur, b, 0o644)
+			}
+		}
 		err = exec(c, x)
 		rec.account(x, cj, err)
 		if err != nil && !errors.Is(err, ErrSkip) {
